@@ -20,7 +20,10 @@ RULE = ('random histories of add_processor(p[, priority]) (new instances, '
         'every operation. Oracle: list kept by stable sort on (priority, '
         'insertion sequence). Non-trivial = a frame with >=3 processors '
         'containing a priority tie after an insertion that landed strictly '
-        'inside the order.')
+        'inside the order.'
+        ' Rounds 9-13 added: every processor callback reads'
+        ' world.processors; the pinned suite under the one-per-type'
+        ' invariant.')
 ANCHORS = [
     'desper/logic/world.py::World.add_processor',
     'desper/logic/world.py::World.remove_processor',
